@@ -120,7 +120,12 @@ def late_additions():
     order = [kdesc, seq('btreeset', kdesc), seq('hashset', kdesc), mapk('btreemap', kdesc, u8),
              mapk('hashmap', kdesc, ('text', 'string')), seq('vec', kdesc), seq('btreeset', tup(kdesc, u8)),
              kasc, seq('btreeset', kasc), mapk('hashmap', kasc, u8)]
-    return big + keys + single + order
+    # a skipped field of a derived struct type (has_default of the model covers #[derive(Default)] structs), of Cow<str>
+    sinner = ('prod', ('struct', 'SInnerD', ('x', 'y'), (False, False)), (P('u32'), ('text', 'string')))
+    souter = ('prod', ('struct', 'SOuter', ('a', 'b', 'c', 'd'), (False, True, False, True)),
+              (u8, sinner, seq('vec', u8), wrap('cow', ('text', 'str'))))
+    skipped = [souter, seq('vec', souter), mapk('btreemap', u8, souter), opt(souter)]
+    return big + keys + single + skipped + order
 
 
 def catalogue_types():
